@@ -22,7 +22,7 @@ for pid in ids:
     ks = ", ".join(f"m{first + i}" for i in range(n))
     txt = f"""You are a careful software engineer doing *mutation seeding* for a verification study of the Python library jsonargparse (builds argparse CLIs from type hints; parses/dumps configs from command line, YAML/JSON files and environment variables).
 
-You have your own scratch git worktree of the library at {wt} (a detached checkout; work ONLY there and in {sd}/; never touch /repo, /verif or any other directory, and do not read anything under /verif). Python to use: /venv/bin/python (3.12, has pytest, PyYAML, etc.). ALWAYS run with the environment variable PYTHONPATH={wt} and first confirm once that `import jsonargparse; print(jsonargparse.__file__)` points into {wt} (an editable install of another copy exists in that interpreter; PYTHONPATH must win). There is no network.
+You have your own scratch git worktree of the library at {wt} (a detached checkout; work ONLY there and in {sd}/; never touch /repo, /verif or any other directory, and do not read anything under /verif; never use `git stash` - the stash is shared by all worktrees of the repository and other agents work in theirs: save a change with `git diff > file`, undo it with `git checkout -- .`, re-apply it with `git apply file`). Python to use: /venv/bin/python (3.12, has pytest, PyYAML, etc.). ALWAYS run with the environment variable PYTHONPATH={wt} and first confirm once that `import jsonargparse; print(jsonargparse.__file__)` points into {wt} (an editable install of another copy exists in that interpreter; PYTHONPATH must win). There is no network.
 
 The property under study:
 
